@@ -26,4 +26,12 @@ PROPS = {
                 profiles=(["debug"], ["debug", "release"]), case_timeout=300,
                 rule="cases = (stream of 1-12 random real AMQP frames) x (cut positions: all pairs for short streams, random multi-cuts, 1-byte, 4096-byte, none) x (would-block after each read or not) x (terminal: none / EOF / read error) x (corruption: none / frame-end octet / undecodable payload of frame k); distinct = digest of stream bytes and script shape; every case is non-trivial (>= 1 frame)",
                 assumptions=["reads never return Ok(0) except at end of stream", "trusted base: harness envelope parser, amq-protocol codec"]),
+    "C14": dict(level="exploration",
+                level_text="Held on the executions produced: the public ConfirmSmoother API is driven with every well-formed confirmation history of up to 4 (quick) / 5 (thorough) tags x ack/nack x several starting tags (incl. near 2^64), every early-drop pattern for <= 3 tags, random well-formed histories of up to 200 tags with random early drops, and arbitrary duplicate/stale streams; a 20-line first-writer-wins reference is compared after every process() call, so earliness, lateness, order, duplicates and outcomes are all decided per call.",
+                level_note="No hook. Starting tags are kept below 2^64-1-n so the tag counter itself cannot overflow (2^64 publishes are out of scope). For arbitrary (non well-formed) input only the safety half is asserted, as the property states.",
+                technique="runtime monitoring: reference-model oracle compared per call, bounded-exhaustive history enumeration + seeded random histories",
+                progress=False, abort=False, min_nontrivial=(100, 2000),
+                profiles=(["debug"], ["debug", "release"]), case_timeout=600,
+                rule="cases = confirmation histories: (a) every well-formed history (each tag confirmed once, singly or by a multiple covering all still-unconfirmed lower tags) of <= N tags x ack/nack x 4 starting tags, each with iterator-drop patterns; (b) random well-formed histories <= 200 tags with random drops; (c) arbitrary duplicate/stale streams; distinct = digest of (history, drops); all non-trivial",
+                assumptions=["tags never reach 2^64-1", "trusted base: the reference model in harness/src/props/c14.rs"]),
 }
